@@ -87,3 +87,29 @@ def arctan2(y, x):
         return np.arctan2(a, c) + 1j * (c * b - a * d) / (a**2 + c**2)
     else:
         return np.arctan2(y, x)
+
+
+def log1p(x):
+    """
+    Complex-compatible log1p that keeps the accuracy of numpy.log1p for small arguments.
+
+    For complex arguments numpy.log1p evaluates log(abs(1 + x)), which has an absolute error of
+    one unit roundoff, so log1p(1e-9 + 0j).real is only correct to 7 digits.
+
+    Parameters
+    ----------
+    x : float, complex or ndarray
+        Value(s) to be computed on.
+
+    Returns
+    -------
+    float, complex or ndarray
+        The natural logarithm of 1 + x.
+    """
+    if np.iscomplexobj(x):
+        a = np.real(x)
+        b = np.imag(x)
+        if np.all(a > -1.0):
+            # log(abs(1 + x)) = log1p(a) + log(1 + (b / (1 + a))**2) / 2
+            return np.log1p(a) + 0.5 * np.log1p((b / (1.0 + a))**2) + 1j * np.arctan2(b, 1.0 + a)
+    return np.log1p(x)
